@@ -79,8 +79,9 @@ let run (path : String.t) =
       let drained = (fin = "quiesce" || fin = "close") && !special = None in
       if drained then begin
         (* wake-driven final phase: sinks ready, publishers idle or finished *)
-        if not (obs_delivered_all evs && obs_all_adopted evs) then (add "c01"; add "c09");
-        if accepted && not (delivered_all st) then (add "c01"; add "c09");
+        let had_failures = List.exists (function ESinkReady (_, RErr) | ESinkFlush (_, RErr) | ESinkSend (_, _, false) -> true | _ -> false) evs in
+        if not (obs_delivered_all evs && obs_all_adopted evs) then (add "c01"; add "c09"; if had_failures then add "c08");
+        if accepted && not (delivered_all st) then (add "c01"; add "c09"; if had_failures then add "c08");
         if fin = "close" && not (completed evs) then (add "c16"; add "c09")
       end;
       let prop = (!viol = []) in
